@@ -161,6 +161,11 @@ where
     pub fn set_mp_nexthop(&mut self, nexthop: NextHop)
         -> Result<(), ComposeError>
     {
+        // The next hop of an unsupported address family has no wire format,
+        // composing it (or even calculating its length) would panic.
+        if let NextHop::Unimplemented(_) = nexthop {
+            return Err(ComposeError::IllegalCombination);
+        }
         if let Some(ref mut a) = self.announcements.as_mut() {
             a.set_nexthop(nexthop)?;
         } else {
